@@ -39,7 +39,7 @@ TABLE_PROFILE = {
 }
 
 COLUMN_PROFILE = {
-    "kinds": ["insert", "ctas", "insert_cols", "view", "select_into", "update_from", "merge", "update_self", "merge_two_inserts"],
+    "kinds": ["insert", "ctas", "insert_cols", "view", "select_into", "update_from", "merge", "update_self", "merge_two_inserts", "view_cols"],
     "query": ["select", "union", "with", "union3", "union_paren"],
     "from": ["one", "join", "comma", "left_using", "join3", "join_paren_join", "paren_join_join"],
     "rel": ["base", "base_alias", "qualified_alias", "qualified", "derived", "derived_union", "derived_star", "cte", "cte_alias"],
@@ -383,12 +383,13 @@ def gen_statement(ch, profile, depth=2):
     if kind in ("insert", "ctas", "view", "bare"):
         q = gen_query(ctx, depth, "q")
         return {"kind": kind, "target": None if kind == "bare" else tgt, "collist": None, "q": q}
-    if kind == "insert_cols":
+    if kind in ("insert_cols", "view_cols"):
         q = gen_query(ctx, depth, "q")
         names = out_names(q, ctx.ctes)
+        k = "insert" if kind == "insert_cols" else "view"
         if names is None:
-            return {"kind": "insert", "target": tgt, "collist": None, "q": q}
-        return {"kind": "insert", "target": tgt, "collist": [f"k{i}" for i in range(len(names))], "q": q}
+            return {"kind": k, "target": tgt, "collist": None, "q": q}
+        return {"kind": k, "target": tgt, "collist": [f"k{i}" for i in range(len(names))], "q": q}
     if kind == "select_into":
         q = gen_query(ctx, depth, "q", lambda a: a in ("select", "with"))
         return {"kind": "select_into", "target": tgt, "collist": None, "q": q}
@@ -611,7 +612,8 @@ def render(st, o: R | None = None) -> str:
     if k == "ctas":
         return f"CREATE TABLE {tgt} AS {r_query(st['q'], o)}"
     if k == "view":
-        return f"CREATE VIEW {tgt} AS {r_query(st['q'], o)}"
+        cl = f" ({', '.join(st['collist'])})" if st.get("collist") else ""
+        return f"CREATE VIEW {tgt}{cl} AS {r_query(st['q'], o)}"
     if k == "select_into":
         return r_query(st["q"], o, into=tgt)
     if k == "update":
